@@ -172,6 +172,21 @@ func runC04(r *Run) {
 			}
 			r.check(okRaw && !readsNormalised, "addPrefixToRoute:joins-raw-pattern", r.fpos(pre), "getGroupPath(prefix, route.Path): the raw pattern is re-normalised with the parent's options",
 				"addPrefixToRoute derives the mounted pattern from the sub-app's normalised Route.path instead of the raw Route.Path: the sub-app's own CaseSensitive/StrictRouting handling is baked into the mounted route, unlike a group registration under the parent")
+			// … and the prefix it is joined with is the mount point as written (the placeholder's Route.Path), not the
+			// placeholder's normalised path, which carries the case folding of the app that owns the placeholder
+			ps := r.Fn("", "(*App).processSubAppsRoutes")
+			np := 0
+			withHelpers(func() {
+				for _, c := range callsMatching(ps, false, nameHasSuffix("App).addPrefixToRoute")) {
+					np++
+					pfx := c.Common.Args[1]
+					raw := dependsOn(pfx, func(v ssa.Value) bool { return loadOfField(v, "Route.Path") }) != nil
+					norm := dependsOn(pfx, func(v ssa.Value) bool { return loadOfField(v, "Route.path") }) != nil
+					r.check(raw && !norm, fmt.Sprintf("processSubAppsRoutes:addPrefixToRoute#%d:prefix-as-written", np), r.pos(c.Instr), "the mount prefix handed on is the placeholder's Route.Path",
+						"the routes of a mounted sub-app are prefixed with the mount placeholder's normalised path: a nested mount `one.Use(\"/Two\", two)` under a case-sensitive root answers /one/two/… although the equivalent groups answer /one/Two/… only")
+				}
+			})
+			r.atLeast("addPrefixToRoute call sites at mount time", np, 1)
 		})
 	})
 
